@@ -318,6 +318,29 @@ func checkC09(c *mc.Ctx) {
 				}
 			}
 		}
+		// a field wiped out: every run of 1..4 bytes, at every byte offset, forced to all zeros / all ones (a CRC_32 field
+		// that reads 0x00000000 or 0xFFFFFFFF, a length that reads 0, ...)
+		for off := 0; off < len(unit); off++ {
+			for l := 1; l <= 4 && off+l <= len(unit); l++ {
+				for _, fill := range []byte{0x00, 0xff} {
+					off, l, fill := off, l, fill
+					same := true
+					for k := 0; k < l; k++ {
+						same = same && unit[off+k] == fill
+					}
+					if same {
+						continue
+					}
+					muts = append(muts, mut{fmt.Sprintf("bytes %d..%d forced to %#02x", off, off+l-1, fill), func() []byte {
+						x := append([]byte{}, unit...)
+						for k := 0; k < l; k++ {
+							x[off+k] = fill
+						}
+						return x
+					}})
+				}
+			}
+		}
 		// every pair of bit flips (CRC-32 detects all double errors in messages this short); quick: units
 		// up to 64 bytes, thorough: all units
 		if len(unit) <= 64 || c.Thorough() {
@@ -353,7 +376,7 @@ func checkC09(c *mc.Ctx) {
 		})
 		c.Ev.DistinctAdd(done)
 		c.Ev.AddScenario(mc.Scenario{Name: "demux:" + b.Name, SpaceSize: total, Executed: done, Exhaustive: done == total,
-			Bound: fmt.Sprintf("unit of %d bytes: every bit flip, every pair of bit flips (quick: units <= 64 bytes), every byte x 3 substitutions, bursts 2..32 bits (2 patterns), every truncation, extensions 1..8 x 4 fills", len(unit))})
+			Bound: fmt.Sprintf("unit of %d bytes: every bit flip, every pair of bit flips (quick: units <= 64 bytes), every byte x 3 substitutions, bursts 2..32 bits (2 patterns), every run of 1..4 bytes forced to 0x00 / 0xFF, every truncation, extensions 1..8 x 4 fills", len(unit))})
 	}
 	c09Mux(c)
 	c.Ev.Require("unit-still-valid", "unit-rejected-by-reference", "reference-outcome-is-an-error", "mux-pmt-validated", "mux-pmt-too-large", "mux-pmt-retransmitted")
